@@ -4647,3 +4647,21 @@ impl<'a, E: quiver_core::effects::Effect> Compiler<'a, E> {
         self.compile_accessor(last_type, accessors, target, base_prov)
     }
 }
+
+/// Verification hooks (feature `verif`): the narrowing helpers, which live in a private module.
+#[cfg(feature = "verif")]
+pub mod verif_narrowing {
+    use quiver_core::program::Program;
+
+    pub fn intersect_types(a: usize, b: usize, program: &mut Program) -> usize {
+        super::narrowing::intersect_types(a, b, program)
+    }
+
+    pub fn compute_complement(original: usize, narrowed: usize, program: &mut Program) -> usize {
+        super::narrowing::compute_complement(original, narrowed, program)
+    }
+
+    pub fn union_type_ids(program: &mut Program, ids: Vec<usize>) -> usize {
+        super::typing::union_type_ids(program, ids)
+    }
+}
